@@ -7,13 +7,19 @@
    are skipped, so every list is a schedule), all producer programs [prog] and all numbers of
    pulls [k] unless it says otherwise.
 
-   RESULT: the consumer side (pull) never misses a wake-up.  The producer side
-   (waitUntilSizeIsBelow) DOES: it evaluates q.didPull after releasing the mutex, so a pull
-   that completes in between makes it wait on a fresh channel although the queue is already
-   at/below the bound ([c20_no_lost_wakeup_producer_refuted]); with two pulls in that window the
-   runTraditional pipeline deadlocks ([c20_trad_deadlock_refuted]).  The partial theorems exclude
-   exactly that window (g = g0: the channel waited on is the one the field held at the length
-   check), which the proposed fix (capture under the mutex, [WaitBelow true]) makes unconditional. *)
+   RESULT.  The consumer side (pull) never misses a wake-up.  For the producer side the model carries
+   BOTH variants of waitUntilSizeIsBelow, and the tie selects the one the source under test has
+   (ties/C20.py reads client_segment_queue.go on every run):
+   - [WaitBelow true] - q.didPull is captured while the mutex is held.  This is what /repo carries since
+     fix 06bdfe7.  For it the properties hold at full strength: [c20_no_lost_wakeup_producer_fixed],
+     [c20_no_deadlock_fixed].
+   - [WaitBelow false] - the library's original code, which evaluated q.didPull after releasing the
+     mutex.  A pull completing in between made the downloader wait on a fresh channel although the queue
+     was already at/below the bound ([c20_no_lost_wakeup_producer_refuted]); with two pulls in that window
+     the runTraditional pipeline deadlocked ([c20_trad_deadlock_refuted]).  These refutations are kept as
+     regression witnesses of the unrepaired variant (finding F1, reproduced on the real code before the
+     fix); the partial theorems exclude exactly that window (g = g0: the channel waited on is the one the
+     field held at the length check) and are what remains true of the unrepaired code. *)
 From Coq Require Import List ZArith Bool.
 From GoHls Require Import Model.Queue Proofs.QueueInv Proofs.QueueMain Proofs.QueueWitness.
 Import ListNotations.
@@ -126,7 +132,8 @@ Theorem c20_lost_only_in_window : forall prog k sched f n g0 g,
 Proof. exact lost_only_in_window. Qed.
 Print Assumptions c20_lost_only_in_window.
 
-(* with the proposed fix (didPull := q.didPull while holding the mutex) the property holds at full strength *)
+(* the repaired variant (didPull := q.didPull while holding the mutex; /repo since 06bdfe7): the property
+   holds at full strength *)
 Theorem c20_no_lost_wakeup_producer_fixed : forall prog k sched n g0 g,
   let s := run (init prog k) sched in
   p_pc s = WSel true n g0 g ->
@@ -171,6 +178,28 @@ Example c20_no_deadlock_partial_sat :
   let s := run (init prog3 3) (to_hook ++ [P] ++ rep 6 C ++ rep 6 C ++ rep 4 C) in
   p_pc s = WSel false 1 0 0 /\ c_pc s = CSel 1 /\ enabled s (TP, BChan) = true.
 Proof. exact ex_both_parked_outside_window. Qed.
+
+(* FULL STRENGTH for the repaired downloader: in every reachable state of every program whose throttles
+   are all the repaired waitUntilSizeIsBelow, the pipeline is not deadlocked; more generally, whenever
+   downloader and processor are both parked in their selects (any bound n >= 0), one of the two selects
+   can fire on its channel *)
+Theorem c20_no_deadlock_fixed : forall prog k sched,
+  repaired prog ->
+  let s := run (init prog k) sched in
+  ~ deadlocked s
+  /\ (forall f n g0 g gc, p_pc s = WSel f n g0 g -> c_pc s = CSel gc -> 0 <= n ->
+        enabled s (TP, BChan) = true \/ enabled s (TC, BChan) = true).
+Proof. exact no_deadlock_fixed. Qed.
+Print Assumptions c20_no_deadlock_fixed.
+(* the schedule of [c20_trad_deadlock_refuted] on the repaired pipeline: both parked, backlog drained,
+   work left on both sides, not cancelled - and the downloader can proceed *)
+Example c20_no_deadlock_fixed_sat :
+  let prog := trad_prog true [10; 11; 12] in
+  let s := run (init prog 3) deadlock_sched in
+  repaired prog /\ (exists g0 g, p_pc s = WSel true 1 g0 g) /\ (exists gc, c_pc s = CSel gc)
+  /\ qlen s <= 1 /\ p_prog s <> [] /\ c_pulls s <> O /\ cancelled s = false
+  /\ enabled s (TP, BChan) = true.
+Proof. exact ex_repaired_both_parked. Qed.
 
 (* ---- cancellation ---- *)
 Theorem c20_cancel : forall prog k sched,
